@@ -1621,12 +1621,18 @@ func (e *ForExpr) Value(ctx *hcl.EvalContext) (cty.Value, hcl.Diagnostics) {
 			} else {
 				k := key.AsString()
 				if _, exists := vals[k]; exists {
+					keyDesc := fmt.Sprintf("the key %q", k)
+					if len(keyMarks) > 0 {
+						// The key is derived from a marked value, so its
+						// content must not be disclosed here.
+						keyDesc = "the same key"
+					}
 					diags = append(diags, &hcl.Diagnostic{
 						Severity: hcl.DiagError,
 						Summary:  "Duplicate object key",
 						Detail: fmt.Sprintf(
-							"Two different items produced the key %q in this 'for' expression. If duplicates are expected, use the ellipsis (...) after the value expression to enable grouping by key.",
-							k,
+							"Two different items produced %s in this 'for' expression. If duplicates are expected, use the ellipsis (...) after the value expression to enable grouping by key.",
+							keyDesc,
 						),
 						Subject:     e.KeyExpr.Range().Ptr(),
 						Context:     &e.SrcRange,
